@@ -143,6 +143,21 @@ def r08_5(ctx: Ctx) -> None:
     for k, ok in checks.items():
         if not ok:
             ctx.violation("R08.5", fi.short, "col_rel_width " + k, fi.where(), f"RTFDocument.__init__: {k} handling of col_rel_width changed (default [1]*ncol, scalar broadcast to ncol, headers inherit a copy of the body's widths)")
+    # every store of an inherited width sits in a loop that binds BOTH the header(s) and the body it inherits from
+    for a in ast.walk(fi.node):
+        if isinstance(a, ast.Assign) and unparse(a.targets[0]) == "header.col_rel_width":
+            src = a.value
+            names = {n.id for n in ast.walk(src) if isinstance(n, ast.Name)} - {"self"}
+            loops = [x for x in T.anc(a, fi.node) if isinstance(x, ast.For)]
+            bound = set()
+            for lp2 in loops:
+                bound |= {n.id for n in ast.walk(lp2.target) if isinstance(n, ast.Name)}
+            stale = sorted(n for n in names if n not in bound)
+            ctx.instance("R08.5", fi.where(a), f"`{unparse(a)}` inside loops binding {sorted(bound)}; names bound elsewhere: {stale}")
+            if stale:
+                ctx.violation("R08.5", fi.short, f"stale loop variable {stale} in {unparse(a)}", fi.where(a),
+                              f"`{unparse(a)}` reads {stale}, which is not bound by the loop(s) around it (a variable left over from an earlier loop): "
+                              "every section's header inherits the widths of one fixed section")
     order_ok = t.find("self.rtf_body.col_rel_width = [1] * dim[1]") < t.find("header.col_rel_width = self.rtf_body.col_rel_width.copy()")
     if not order_ok:
         ctx.violation("R08.5", fi.short, "inherit before default", fi.where(), "headers inherit the body's widths before the body's default/broadcast widths are established")
